@@ -333,11 +333,18 @@ func (s *backoffSUT) RandomStimulus(r *rand.Rand) core.Ev {
 	if s.der != nil {
 		insts = append(insts, "der", "der")
 	}
+	jitExp := s.has("jitter") && core.Str(s.cfg, "base") == "exp"
 	for {
 		i := core.Pick(r, insts...)
 		switch x := r.Intn(100); {
 		case x < 50:
-			if s.calls[i] >= 12 { // the model's integers are 32 bit: keep exponential policies in range
+			// the model's integers are 32 bit: keep exponential policies in range; under Jitter TLC enumerates the
+			// whole interval range, so keep those intervals small
+			limit := 12
+			if jitExp {
+				limit = 5
+			}
+			if s.calls[i] >= limit {
 				continue
 			}
 			return core.Ev{"op": "Next", "i": i}
@@ -354,6 +361,10 @@ func (s *backoffSUT) RandomStimulus(r *rand.Rand) core.Ev {
 			}
 			final := core.Pick(r, "ok", "ok", "perm", "fail")
 			nfail := r.Intn(4)
+			if jitExp {
+				// (the alternatives multiply along the run)
+				final, nfail = core.Pick(r, "ok", "perm"), r.Intn(3)
+			}
 			if final == "fail" {
 				if !s.bounded() {
 					continue
